@@ -40,4 +40,10 @@ def kexHashSizes : List (String × Nat) := [
   ("ecdh-sha2-nistp521", 64),
   ("curve25519-sha256@libssh.org", 32)]
 
+/-- AST of paramiko/packet.py, Packetizer.send_message: `engine.encrypt(self.__iv_out, …)` textually precedes
+    `self.__iv_out = self._inc_iv_counter(self.__iv_out)` (false also when the pattern was not found) -/
+def aeadSendUseFirst : Bool := true
+/-- same for Packetizer.read_message: `engine.decrypt(self.__iv_in, …)` before the `__iv_in` step -/
+def aeadRecvUseFirst : Bool := true
+
 end PV.Generated.C04
